@@ -4,6 +4,8 @@
 // decimal digits for u64 (dec_text: std's integer formatting), the characters of a str / String, and for the crate's own types the text
 // their lifted `display_fmt` is PROVED to write (modular: `{}` on a value of type T calls T's Display::fmt).
 pub uninterp spec fn fmt_out<'a>(f: std::fmt::Formatter<'a>) -> Seq<char>;
+// the underlying writer has failed: the only way a `write!` returns Err -- and the only excuse for a Display impl to return Err
+pub uninterp spec fn fmt_failed<'a>(f: std::fmt::Formatter<'a>) -> bool;
 pub trait DispSpec { spec fn disp(&self) -> Seq<char>; }
 pub uninterp spec fn dec_text(n: nat) -> Seq<char>;
 // std prints a u64 as its decimal digits (at least one), and reading them back gives the number
@@ -37,18 +39,22 @@ impl DispSpec for Version { open spec fn disp(&self) -> Seq<char> { ver_text(*se
 #[verifier::external_body]
 pub fn verif_write0(f: &mut std::fmt::Formatter<'_>, p0: &str) -> (r: std::fmt::Result)
     ensures r is Ok ==> fmt_out(*final(f)) == fmt_out(*old(f)) + p0@,
+        r is Err ==> fmt_failed(*final(f)), r is Ok ==> fmt_failed(*final(f)) == fmt_failed(*old(f)),
 { unimplemented!() }
 #[verifier::external_body]
 pub fn verif_write1<A: DispSpec>(f: &mut std::fmt::Formatter<'_>, p0: &str, a: A, p1: &str) -> (r: std::fmt::Result)
     ensures r is Ok ==> fmt_out(*final(f)) == fmt_out(*old(f)) + p0@ + a.disp() + p1@,
+        r is Err ==> fmt_failed(*final(f)), r is Ok ==> fmt_failed(*final(f)) == fmt_failed(*old(f)),
 { unimplemented!() }
 #[verifier::external_body]
 pub fn verif_write2<A: DispSpec, B: DispSpec>(f: &mut std::fmt::Formatter<'_>, p0: &str, a: A, p1: &str, b: B, p2: &str) -> (r: std::fmt::Result)
     ensures r is Ok ==> fmt_out(*final(f)) == fmt_out(*old(f)) + p0@ + a.disp() + p1@ + b.disp() + p2@,
+        r is Err ==> fmt_failed(*final(f)), r is Ok ==> fmt_failed(*final(f)) == fmt_failed(*old(f)),
 { unimplemented!() }
 #[verifier::external_body]
 pub fn verif_write3<A: DispSpec, B: DispSpec, C: DispSpec>(f: &mut std::fmt::Formatter<'_>, p0: &str, a: A, p1: &str, b: B, p2: &str, c: C, p3: &str) -> (r: std::fmt::Result)
     ensures r is Ok ==> fmt_out(*final(f)) == fmt_out(*old(f)) + p0@ + a.disp() + p1@ + b.disp() + p2@ + c.disp() + p3@,
+        r is Err ==> fmt_failed(*final(f)), r is Ok ==> fmt_failed(*final(f)) == fmt_failed(*old(f)),
 { unimplemented!() }
 // std: a Vec never holds more than isize::MAX elements
 pub broadcast axiom fn ax_vec_len_fits<T>(v: Vec<T>)
